@@ -9,6 +9,8 @@ use std::collections::HashMap;
 
 verus! {
 /*@ import unit=U-BUF @*/
+/*@ include path=std_model2.rs @*/
+/*@ include path=net_model.rs @*/
 //@ body-begin
 
 // ---- reference model of the VarInt wire format (wiki.vg "VarInt and VarLong") ----
@@ -145,6 +147,31 @@ loop 1 {
         buffer.rest() == bytes0.subrange(p1 + verif_it1.index@, bytes0.len() as int),
 }
 @*/
+
+// ---------------- Java client framing (crates/lib/src/games/minecraft/protocol/java.rs) ----------------
+/*@ item file=crates/lib/src/games/minecraft/types.rs kind=struct name=RequestSettings @*/
+/*@ item file=crates/lib/src/games/minecraft/protocol/java.rs kind=struct name=Java @*/
+impl Java {
+// the reply stream is one read of everything the server sent (TcpSocket model); the leading VarInt (declared packet length) is
+// skipped, never used as a size: what is returned is the rest of the bytes actually received (C13: nothing is reserved from a
+// number the server chose)
+/*@ fn file=crates/lib/src/games/minecraft/protocol/java.rs impl="impl Java" name=receive props=C13,C01,C03,C17
+use R17 R18
+spec {
+    ensures
+        final(self).socket.sent() == old(self).socket.sent(), final(self).socket.attempts() == old(self).socket.attempts(),
+        final(self).retry_count == old(self).retry_count,
+        r is Ok ==> old(self).socket.script().len() > 0 && vi_ok(old(self).socket.script()[0])
+                 && r->Ok_0@ == old(self).socket.script()[0].subrange(vi_len(old(self).socket.script()[0]) as int, old(self).socket.script()[0].len() as int),
+}
+body_start {
+    broadcast use group_alloc;
+}
+tail {
+    proof { buffer.lemma_rest(); }
+}
+@*/
+}
 //@ body-end
 } // verus!
 fn main() {}
